@@ -26,6 +26,10 @@ REPO = os.environ.get("VERIF_REPO", "/repo")
 VERIF = os.path.dirname(os.path.dirname(os.path.abspath(__file__)))
 PYTHON = "/venv/bin/python"
 HASH_SEEDS = ["0", "1", "4242", "31337"]
+# interpreter configuration is part of the environment the simulator varies: workers started with one of these hash
+# seeds also run with PYTHONOPTIMIZE=1 (asserts compiled away); the flag is a function of the hash seed so that a
+# replay file (which records the hash seed) reproduces it
+OPTIMIZED_HASH_SEEDS = {"4242", "31337"}
 
 
 class _Timeout(BaseException):
@@ -98,6 +102,9 @@ def worker_env(hash_seed):
         "NUMEXPR_NUM_THREADS": "1",
         "CGSMILES_VERIF": "1",
     })
+    env.pop("PYTHONOPTIMIZE", None)
+    if str(hash_seed) in OPTIMIZED_HASH_SEEDS:
+        env["PYTHONOPTIMIZE"] = "1"
     return env
 
 
